@@ -32,7 +32,22 @@ func main() {
 	level := flag.String("level", "proof", "evidence level")
 	sweep := flag.String("sweep", "", "extra whole-package pass: determinism")
 	allow := flag.String("allow", "", "allow-list file for the sweep")
+	preinstFile := flag.String("preinst", "", "debug: print the pre-instantiated form of an SMT script and exit")
 	flag.Parse()
+	if *preinstFile != "" {
+		data, err := os.ReadFile(*preinstFile)
+		if err != nil {
+			fmt.Println(err)
+			os.Exit(2)
+		}
+		out, ok := preInstantiate(string(data))
+		if !ok {
+			fmt.Fprintln(os.Stderr, "nothing to instantiate")
+			os.Exit(1)
+		}
+		fmt.Print(out)
+		return
+	}
 	origPath = os.Getenv("PATH")
 	os.Setenv("PATH", "/opt/veriftools/go1.26.8/bin:"+os.Getenv("PATH"))
 	os.Setenv("GOTOOLCHAIN", "local")
@@ -110,14 +125,19 @@ func main() {
 	if s := os.Getenv("VERIF_SEED"); s != "" {
 		fmt.Sscanf(s, "%d", &seed)
 	}
+	if *tier == "quick" && !*updateLock && *lock != "" && *fnre == "" {
+		lk := readLock(*lock)
+		skipObl = func(name string) bool { return lk[lockKey(*tags, name)] == "u" }
+	}
 	verdicts := discharge(results, *workers, tmo, seed, *keep)
+	skipObl = nil
 	// retry undecided obligations that the lock records as discharged, with thorough limits
 	lockSet := readLock(*lock)
 	lockFam := lockFamilies(lockSet)
 	var retry []*FuncResult
 	retryIdx := map[*Obl]int{}
 	for i, v := range verdicts {
-		if cls := lockClass(lockSet, lockFam, *tags, v.Obl.Name); v.Status == "undecided" && (cls == "q" || cls == "c") && tmo < 60000 {
+		if cls := lockClass(lockSet, lockFam, *tags, v.Obl.Name); v.Status == "undecided" && (cls == "q" || cls == "c" || (cls == "" && !*updateLock && *fnre == "" && lockHasFunc(lockSet, *tags, v.Func) && !v.Obl.Cover)) && tmo < 60000 {
 			for _, fr := range results {
 				if fr.Name == v.Func {
 					retry = append(retry, &FuncResult{Name: fr.Name, Spec: fr.Spec, VC: fr.VC, Obls: []*Obl{v.Obl}})
@@ -175,7 +195,7 @@ type Report struct {
 	Explanation string
 	Sweep       string
 	AllowFile   string
-	renamed     map[string]bool
+	inheritedCls map[string]string
 }
 
 func indent(s string) string {
